@@ -5,7 +5,8 @@
   `generate_scalar_imports`), Model/ResultAnn.lean (result annotations over response shapes),
   Model/InputFields.lean (input-class annotations), Model/Arguments.lean (`_get_dict_value`),
   Model/ArgSend.lean (the emitted method), Model/ArgValues.lean (`serCalls`: the calls a value is
-  entitled to).  Reference semantics of pydantic WITH CALL LOGS: Spec/PydLog.lean (modelled, validated
+  entitled to), Model/InputImports.lean (the scalar imports of the `input_types.py` module for every
+  `include_all_inputs` / `types_to_include`, over C09's class filter `Prune.filterInputDefs`).  Reference semantics of pydantic WITH CALL LOGS: Spec/PydLog.lean (modelled, validated
   against the real library with instrumented parse/serialize functions, not verified).
 
   Reading decision (DESIGN.md §3.0): "once per occurrence" counts calls per non-null leaf of the
@@ -19,7 +20,9 @@
   fields (`serialize_once_fields`) hold for every wrapper nesting.
 -/
 import AriadneModel.Model.ResultAnn
+import AriadneModel.Model.InputImports
 import AriadneModel.Proofs.ArgCalls
+import AriadneModel.Proofs.Prune
 import AriadneModel.Properties.C03
 
 set_option linter.unusedSimpArgs false
@@ -323,6 +326,226 @@ theorem imports_wellformed_iff (d : ScalarData) (hne : d.namesToImport ≠ []) :
       trigImportKeyDotted, Option.isSome_some, Bool.true_and]
     simp [List.all_eq_true, List.any_eq_false]
 
+/-! ## 4b. The `input_types.py` module: the scalar imports cover every input class, whichever are emitted -/
+
+section InputsModule
+open Ariadne.InputImports Ariadne.InputFields
+
+/-- a non-empty `field_type` is the base name of the type; when it names a scalar, that scalar is configured -/
+theorem fieldType_spec (cfg : ScalarCfg) (kind : String → TKind) (t : GT) (h : fieldType cfg kind t ≠ "") :
+    fieldType cfg kind t = baseName t ∧ (kind (baseName t) = .scalar → (lookupScalar cfg (baseName t)).isSome = true) := by
+  induction t with
+  | named n nn =>
+    simp only [fieldType, baseName] at h ⊢
+    unfold namedFieldType at h ⊢
+    cases hk : kind n with
+    | scalar =>
+      simp only [hk] at h ⊢
+      cases hb : Util.lookupStr n Tables.inputScalarsMap with
+      | some py => simp [hb] at h
+      | none =>
+        cases hl : lookupScalar cfg n with
+        | none => simp [hb, hl] at h
+        | some d => simp [hb, hl]
+    | input => simp
+    | enum => simp
+    | other => simp [hk] at h
+  | list it nn ih => simpa [fieldType, baseName] using ih (by simpa [fieldType] using h)
+
+/-- the field type of a field whose base type is a configured, non-built-in scalar is that scalar -/
+theorem fieldType_of_configured (cfg : ScalarCfg) (kind : String → TKind) (t : GT) (d : ScalarData)
+    (hk : kind (baseName t) = .scalar) (hb : Util.lookupStr (baseName t) Tables.inputScalarsMap = none)
+    (hd : lookupScalar cfg (baseName t) = some d) : fieldType cfg kind t = baseName t := by
+  induction t with
+  | named n nn => simp only [baseName] at hk hb hd; simp [fieldType, baseName, namedFieldType, hk, hb, hd]
+  | list it nn ih => simpa [fieldType, baseName] using ih hk hb hd
+
+/-- everything `_save_dependencies` appended to `_used_scalars` is a key of `custom_scalars` -/
+theorem usedScalars_configured (s : ISchema) (cfg : ScalarCfg) :
+    ∀ sc ∈ usedScalars (inputDefsOf s cfg), (lookupScalar cfg sc).isSome = true := by
+  intro sc hsc
+  simp only [usedScalars, List.mem_flatMap, inputDefsOf, List.mem_filterMap] at hsc
+  obtain ⟨dfn, ⟨p, _, hp⟩, hin⟩ := hsc
+  cases hp2 : p.2 with
+  | input fs =>
+    simp only [hp2, Option.some.injEq] at hp
+    subst hp
+    simp only [scalarRefs, List.mem_filterMap] at hin
+    obtain ⟨r, ⟨f, _, hr⟩, hrs⟩ := hin
+    cases r with
+    | scalar n =>
+      simp only [Option.some.injEq] at hrs
+      subst hrs
+      unfold refOf at hr
+      by_cases he : (fieldType cfg (kindOf s) f.type == "") = true
+      · simp [he] at hr
+      · simp only [he, Bool.false_eq_true, if_false] at hr
+        have hne : fieldType cfg (kindOf s) f.type ≠ "" := by simpa using he
+        obtain ⟨h1, h2⟩ := fieldType_spec cfg (kindOf s) f.type hne
+        cases hk : kindOf s (fieldType cfg (kindOf s) f.type) with
+        | scalar =>
+          simp only [hk, Option.some.injEq, Prune.Ref.scalar.injEq] at hr
+          rw [← hr, h1]; exact h2 (by rw [← h1]; exact hk)
+        | input => simp [hk] at hr
+        | enum => simp [hk] at hr
+        | other => simp [hk] at hr
+    | input n => simp at hrs
+    | enum n => simp at hrs
+  | scalar => simp [hp2] at hp
+  | enum vs => simp [hp2] at hp
+  | output => simp [hp2] at hp
+
+theorem scalarImportsOf_total (cfg : ScalarCfg) :
+    ∀ l : List String, (∀ sc ∈ l, (lookupScalar cfg sc).isSome = true) → ∃ is, scalarImportsOf cfg l = .ok is := by
+  intro l
+  induction l with
+  | nil => intro _; exact ⟨[], rfl⟩
+  | cons sc rest ih =>
+    intro h
+    obtain ⟨is, his⟩ := ih (fun x hx => h x (List.mem_cons_of_mem _ hx))
+    have hsc := h sc List.mem_cons_self
+    cases hl : lookupScalar cfg sc with
+    | none => simp [hl] at hsc
+    | some d => exact ⟨scalarImports d ++ is, by simp [scalarImportsOf, hl, his]⟩
+
+theorem scalarImportsOf_mem (cfg : ScalarCfg) :
+    ∀ (l : List String) (is : List Import), scalarImportsOf cfg l = .ok is →
+      ∀ sc ∈ l, ∀ d, lookupScalar cfg sc = some d → ∀ i ∈ scalarImports d, i ∈ is := by
+  intro l
+  induction l with
+  | nil => intro is _ sc hsc; cases hsc
+  | cons a rest ih =>
+    intro is h sc hsc d hd i hi
+    simp only [scalarImportsOf] at h
+    cases hl : lookupScalar cfg a with
+    | none => simp [hl] at h
+    | some da =>
+      cases hr : scalarImportsOf cfg rest with
+      | error e => simp [hl, hr] at h
+      | ok is' =>
+        simp only [hl, hr, Except.ok.injEq] at h
+        subst h
+        rcases List.mem_cons.mp hsc with he | he
+        · subst he
+          rw [hl] at hd; cases hd
+          exact List.mem_append_left _ hi
+        · exact List.mem_append_right _ (ih is' hr sc he d hd i hi)
+
+/-- `generate` never fails: no `KeyError` on `custom_scalars[...]`, no runaway recursion, for every
+    schema, configuration and `types_to_include` -/
+theorem inputs_generate_total (s : ISchema) (cfg : ScalarCfg) (roots : Option (List String)) :
+    ∃ m, InputImports.generate s cfg roots = .ok m := by
+  obtain ⟨is, his⟩ := scalarImportsOf_total cfg _ (usedScalars_configured s cfg)
+  cases roots with
+  | none =>
+    exact ⟨⟨(inputDefsOf s cfg).map (·.name), usedScalars (inputDefsOf s cfg), is⟩,
+      by simp [InputImports.generate, Prune.filterInputDefs, his]⟩
+  | some rs =>
+    obtain ⟨l, hl, _⟩ := Prune.typesNames_spec (inputDefsOf s cfg) rs
+    exact ⟨⟨((inputDefsOf s cfg).filter (fun c => decide (c.name ∈ l))).map (·.name), usedScalars (inputDefsOf s cfg), is⟩,
+      by simp [InputImports.generate, Prune.filterInputDefs, hl, his]⟩
+
+/-- every emitted class is an input type of the schema -/
+theorem emitted_classes_are_inputs (s : ISchema) (cfg : ScalarCfg) (roots : Option (List String)) (m : InputsModule)
+    (h : InputImports.generate s cfg roots = .ok m) : ∀ c ∈ m.classes, ∃ fs, (c, IType.input fs) ∈ s.types := by
+  intro c hc
+  have hsub : ∀ cds, Prune.filterInputDefs (inputDefsOf s cfg) roots = some cds → ∀ x ∈ cds, x ∈ inputDefsOf s cfg := by
+    intro cds hcds x hx
+    cases roots with
+    | none => simp only [Prune.filterInputDefs, Option.some.injEq] at hcds; subst hcds; exact hx
+    | some rs =>
+      simp only [Prune.filterInputDefs, Option.map_eq_some_iff] at hcds
+      obtain ⟨ns, _, rfl⟩ := hcds
+      exact (List.mem_filter.mp hx).1
+  unfold InputImports.generate at h
+  cases hf : Prune.filterInputDefs (inputDefsOf s cfg) roots with
+  | none => simp [hf] at h
+  | some cds =>
+    cases hi : scalarImportsOf cfg (usedScalars (inputDefsOf s cfg)) with
+    | error e => simp [hf, hi] at h
+    | ok is =>
+      simp only [hf, hi, Except.ok.injEq] at h
+      subst h
+      simp only [List.mem_map] at hc
+      obtain ⟨dfn, hd, rfl⟩ := hc
+      have := hsub cds hf dfn hd
+      simp only [inputDefsOf, List.mem_filterMap] at this
+      obtain ⟨p, hp, hp2⟩ := this
+      cases hq : p.2 with
+      | input fs => simp only [hq, Option.some.injEq] at hp2; subst hp2; exact ⟨fs, by rw [← hq]; exact hp⟩
+      | scalar => simp [hq] at hp2
+      | enum vs => simp [hq] at hp2
+      | output => simp [hq] at hp2
+
+/-- `inputs_imports_cover`: for every `types_to_include` (hence both values of `include_all_inputs`),
+    every input type `n` of the schema (by `emitted_classes_are_inputs`: every emitted class, the
+    directly requested ones and the ones pulled in by the dependency closure alike) and every field of
+    it whose base type is a configured custom scalar `d`: the field's annotation leaf is
+    `generate_input_scalar_annotation(d)`, every import `generate_scalar_imports(d)` makes is in the
+    module, and every name the annotation uses is bound by the module's imports (or is an undotted
+    name configured without the `import` key: a builtin such as `str`, by design). -/
+theorem inputs_imports_cover (s : ISchema) (cfg : ScalarCfg) (roots : Option (List String)) (m : InputsModule)
+    (h : InputImports.generate s cfg roots = .ok m)
+    (n : String) (fs : List IField) (hn : (n, IType.input fs) ∈ s.types) (f : IField) (hf : f ∈ fs) (d : ScalarData)
+    (hk : kindOf s (baseName f.type) = .scalar) (hb : Util.lookupStr (baseName f.type) Tables.inputScalarsMap = none)
+    (hd : lookupScalar cfg (baseName f.type) = some d) (hne : baseName f.type ≠ "")
+    (ht : truthy? (some d.type_) = some d.type_) :
+    namedLeaf cfg (kindOf s) (baseName f.type) = inputLeaf d ∧
+    (∀ i ∈ scalarImports d, i ∈ m.scalarImports) ∧
+    (∀ x ∈ (inputLeaf d).uses, ∃ y ∈ d.namesToImport, objectName y = x ∧
+        (x ∈ boundNames m.scalarImports ∨ (hasDot y = false ∧ truthy? d.import_ = none))) := by
+  have himp : ∀ i ∈ scalarImports d, i ∈ m.scalarImports := by
+    have hft := fieldType_of_configured cfg (kindOf s) f.type d hk hb hd
+    have hmem : baseName f.type ∈ usedScalars (inputDefsOf s cfg) := by
+      simp only [usedScalars, List.mem_flatMap]
+      refine ⟨{ name := n, fields := fs.filterMap (fun f => refOf (kindOf s) (fieldType cfg (kindOf s) f.type)) }, ?_, ?_⟩
+      · simp only [inputDefsOf, List.mem_filterMap]
+        exact ⟨(n, IType.input fs), hn, rfl⟩
+      · simp only [scalarRefs, List.mem_filterMap]
+        refine ⟨.scalar (baseName f.type), ⟨f, hf, ?_⟩, rfl⟩
+        have hne' : (baseName f.type == "") = false := by simpa using hne
+        simp [refOf, hft, hne', hk]
+    unfold InputImports.generate at h
+    cases hfl : Prune.filterInputDefs (inputDefsOf s cfg) roots with
+    | none => simp [hfl] at h
+    | some cds =>
+      cases hi : scalarImportsOf cfg (usedScalars (inputDefsOf s cfg)) with
+      | error e => simp [hfl, hi] at h
+      | ok is =>
+        simp only [hfl, hi, Except.ok.injEq] at h
+        subst h
+        exact scalarImportsOf_mem cfg _ is hi _ hmem d hd
+  refine ⟨by simp [namedLeaf, hk, hb, hd], himp, ?_⟩
+  intro x hx
+  have hu : x ∈ usedNames d := by
+    simp only [inputLeaf] at hx
+    cases hs : d.serializeName with
+    | none => simp [hs, Leaf.uses] at hx; simp [usedNames, hx]
+    | some fn =>
+      simp only [hs, Leaf.uses, List.mem_cons, List.not_mem_nil, or_false] at hx
+      rcases hx with hx | hx <;> simp [usedNames, hx, hs]
+  obtain ⟨y, hy, hyx⟩ := usedNames_from_imports d ht x hu
+  refine ⟨y, hy, hyx, ?_⟩
+  rcases imports_cover d y hy with hbd | hnd
+  · left
+    rw [← hyx]
+    simp only [boundNames, List.mem_flatten, List.mem_map] at hbd ⊢
+    obtain ⟨l, ⟨i, hi, rfl⟩, hl⟩ := hbd
+    exact ⟨i.names, ⟨i, himp i hi, rfl⟩, hl⟩
+  · right; exact hnd
+
+/-- non-vacuity: `Order.line: Line`, `Line.price: Money` with `Money` configured by dotted paths; only
+    `Order` is requested, `Line` is emitted through the closure and its scalar's imports are there -/
+def exSchema : ISchema := ⟨[("Money", .scalar), ("Order", .input [⟨"line", .named "Line" true, none⟩]),
+  ("Line", .input [⟨"price", .named "Money" true, none⟩]), ("Audit", .input [⟨"at", .named "Money" false, none⟩])]⟩
+def exScalars : ScalarCfg := [("Money", { type_ := ".money.Money", serialize := some ".money.ser" })]
+example : (match InputImports.generate exSchema exScalars (some ["Order"]) with
+    | .ok m => decide (m = ⟨["Order", "Line"], ["Money", "Money"],
+        [⟨".money", ["Money"]⟩, ⟨".money", ["ser"]⟩, ⟨".money", ["Money"]⟩, ⟨".money", ["ser"]⟩]⟩)
+    | .error _ => false) = true := by decide
+
+end InputsModule
+
 /-! ## 5. Top-level arguments: the property as written is false -/
 
 /-- C07 for the arguments of one call: `serialize` is called exactly once per non-null
@@ -427,6 +650,114 @@ theorem C07_full_false : ¬ C07_full := by
   intro h
   have hv : C03.Valid_03 C03.scaCfg C03.wFns C03.f5Defs := ⟨C03.sca_hyp, by decide, by decide⟩
   exact F1_witness_fails (h C03.scaCfg C03.wFns true "Q" "query Q" C03.f5Defs [.unset] hv (by decide)).1
+
+/-! ### 5b. The C07-F1 region, value by value: a nullable serialised variable with a PRESENT value is fine
+
+  `trigSerializeNullable` (shared with C03) is a predicate on the variable *definitions*: `C07_partial`
+  says nothing about an operation that declares `$d: Scalar` even when the caller passes a value.
+  On the call-log components of a request (`dictCalls`: the calls of the `variables` dict literal,
+  `dumpP`: the calls of the dumps of the arguments - what `send` returns as `req.calls` wherever it
+  succeeds, `send_calls`) the region is narrowed to the VALUES on which the unchanged code really
+  fails: a serialised scalar variable may be nullable as long as the value passed is a present scalar
+  value - truthy or falsy alike: the model has no notion of truthiness, `serialize` is called
+  unconditionally.  (The composition with `send` over the larger region would need `callMethod_ok` /
+  `dict_coerces` of Proofs/ArgDeliver.lean re-proved for the value-level condition: not done; the
+  whole-request call log is tied to the real packages there by the `serialize-log` correspondence.) -/
+
+def isCustomValue : AV → Bool
+  | .custom _ _ => true
+  | _ => false
+
+/-- value-level form of the serialize triggers: a variable whose scalar has `serialize` is not a
+    list and is either `Scalar!` or carries a present scalar value -/
+def serTopOKV (cfg : Cfg) : List IField → List AV → Bool
+  | d :: ds, v :: vs =>
+    (match cfg.serOfType d.type with
+     | some _ => !d.type.isList && (d.type.nonNull || isCustomValue v)
+     | none => true) && serTopOKV cfg ds vs
+  | _, _ => true
+
+theorem serTopOKV_of_serTopOK (cfg : Cfg) (ds : List IField) (vs : List AV) (h : serTopOK cfg ds = true) :
+    serTopOKV cfg ds vs = true := by
+  induction ds generalizing vs with
+  | nil => simp [serTopOKV]
+  | cons d ds ih =>
+    cases vs with
+    | nil => simp [serTopOKV]
+    | cons v vs =>
+      simp only [serTopOK, Bool.and_eq_true] at h
+      simp only [serTopOKV, Bool.and_eq_true]
+      refine ⟨?_, ih vs h.2⟩
+      cases hser : cfg.serOfType d.type with
+      | none => rfl
+      | some f =>
+        have h1 := h.1
+        rw [hser] at h1
+        simp only [Bool.and_eq_true, Bool.not_eq_true'] at h1
+        simp [h1.1, h1.2]
+
+/-- per argument, value-level: dict part + dump part = the entitled calls -/
+theorem arg_calls_present (cfg : Cfg) (fns : UserFns) (hy : Hyp cfg fns) (d : IField) (v : AV)
+    (hv : (v.isUnset = true ∧ d.type.nonNull = false) ∨ hasType cfg d.type v = true)
+    (hs : (match cfg.serOfType d.type with
+           | some _ => !d.type.isList && (d.type.nonNull || isCustomValue v)
+           | none => true) = true) :
+    dictPart cfg d v ++ (if v.isUnset then [] else argCalls fns v) = serCalls cfg v := by
+  cases hser : cfg.serOfType d.type with
+  | none => exact arg_calls cfg fns hy d v hv (by simp [hser])
+  | some f =>
+    rw [hser] at hs
+    simp only [Bool.and_eq_true, Bool.not_eq_true', Bool.or_eq_true] at hs
+    rcases hs.2 with hnn | hc
+    · exact arg_calls cfg fns hy d v hv (by simp [hser, hnn, hs.1])
+    · cases v with
+      | custom sc j =>
+        rcases hv with ⟨hu, _⟩ | ht
+        · simp [AV.isUnset] at hu
+        · cases hty : d.type with
+          | list it nn => have := hs.1; rw [hty] at this; simp [GT.isList] at this
+          | named n nn =>
+            rw [hty] at ht hser
+            have hl : leafOK cfg n (.custom sc j) = true := by simpa [hasType] using ht
+            simp only [leafOK, Bool.and_eq_true, beq_iff_eq] at hl
+            obtain ⟨⟨e, _⟩, _⟩ := hl
+            subst e
+            have hsc' := isScalar_of_serOfType cfg _ f hser
+            have hsc'' : cfg.isScalar sc = true := by simpa [GT.base] using hsc'
+            have hsc : cfg.serializeOf sc = some f := by simpa [Cfg.serOfType, GT.base, hsc''] using hser
+            simp [serCalls, hsc, argCalls, objOf, AV.isUnset, dictPart, hty, hser]
+      | _ => simp [isCustomValue] at hc
+
+/-- `request_calls_present`: for every schema-valid assignment in which each serialised scalar
+    variable is `Scalar!` or carries a present value (nullable variables included), the calls of the
+    dict literal together with the calls of the dumps are a permutation of one call per non-null
+    occurrence - whatever the values are (nothing depends on their truthiness). -/
+theorem request_calls_present (cfg : Cfg) (fns : UserFns) (hy : Hyp cfg fns) (ds : List IField) (vs : List AV)
+    (hv : argsValid cfg ds vs = true) (hs : serTopOKV cfg ds vs = true) :
+    (dictCalls cfg ds vs ++ dumpP fns vs).Perm (serCallsList cfg vs) := by
+  induction ds generalizing vs with
+  | nil => cases vs <;> simp [argsValid] at hv; simp [dictCalls, dumpP, serCallsList]
+  | cons d ds ih =>
+    cases vs with
+    | nil => simp [argsValid] at hv
+    | cons v vs =>
+      have hz := (argsValid_zip cfg (d :: ds) (v :: vs) hv).2 (d, v) (by simp)
+      simp only [argsValid, Bool.and_eq_true] at hv
+      simp only [serTopOKV, Bool.and_eq_true] at hs
+      have ih' := ih vs hv.2 hs.2
+      have ha := arg_calls_present cfg fns hy d v hz hs.1
+      simp only [dictCalls, dumpP, serCallsList]
+      refine (perm_interleave _ _ _ _).trans ?_
+      rw [ha]
+      exact List.Perm.append_left _ ih'
+
+/-- non-vacuity: the C07-F1 witness definitions (`$a: ScA`, nullable) with a present value are inside the region,
+    with `None` / omitted they are not -/
+example : serTopOKV C03.scaCfg (C03.idefs C03.f5Defs) [.custom "ScA" (.str "")] = true ∧
+    argsValid C03.scaCfg (C03.idefs C03.f5Defs) [.custom "ScA" (.str "")] = true ∧
+    serTopOK C03.scaCfg (C03.idefs C03.f5Defs) = false ∧
+    serTopOKV C03.scaCfg (C03.idefs C03.f5Defs) [.none] = false ∧
+    serTopOKV C03.scaCfg (C03.idefs C03.f5Defs) [.unset] = false := by decide
 
 /-! ## 6. Non-vacuity -/
 
